@@ -1220,6 +1220,32 @@ func assertIdxAndOffset(name string, length int, idx int, offset int) {
 	}
 }
 
+// ownValues replaces all column values with private copies, so the block no longer
+// references the buffer of the decoder it was loaded with.
+func (bi *blockPointer) ownValues() {
+	own := func(cc []column) {
+		for i := range cc {
+			var size int
+			for _, v := range cc[i].values {
+				size += len(v)
+			}
+			buf := make([]byte, 0, size)
+			for j, v := range cc[i].values {
+				if len(v) == 0 {
+					continue
+				}
+				start := len(buf)
+				buf = append(buf, v...)
+				cc[i].values[j] = buf[start:len(buf):len(buf)]
+			}
+		}
+	}
+	for i := range bi.tagFamilies {
+		own(bi.tagFamilies[i].columns)
+	}
+	own(bi.field.columns)
+}
+
 func (bi *blockPointer) isFull() bool {
 	return bi.bm.count >= maxBlockLength || bi.bm.uncompressedSizeBytes >= maxUncompressedBlockSize
 }
